@@ -34,6 +34,38 @@ func edgeHasFact(from, to *ssa.BasicBlock, pred func(fact) bool) bool {
 }
 
 func runC09(c *Ctx) {
+	c.Rule("C09.TAGS", "FLOW: the tag columns that key the dedup (PARTITION BY) are the union over ALL input files of the job: the loop in readTagColumnsFromParquetFiles ranges over its whole files parameter, not over a sub-slice or a capped prefix — a tag present only in files left out drops out of the key and rows differing only in it are collapsed as duplicates")
+	{
+		var fn *ssa.Function
+		for _, f := range c.P.FuncsIn("internal/compaction") {
+			if f.Name() == "readTagColumnsFromParquetFiles" {
+				fn = f
+			}
+		}
+		if fn == nil {
+			c.Unk("C09.TAGS", "readTagColumnsFromParquetFiles|function", 0, "function not found")
+		} else {
+			var files *ssa.Parameter
+			for _, q := range fn.Params {
+				if strings.HasPrefix(q.Type().String(), "[]string") {
+					files = q
+				}
+			}
+			sliced := false
+			ranged := false
+			for _, in := range instrs(fn, true) {
+				if sl, ok := in.(*ssa.Slice); ok && files != nil && resolveParam(sl.X) == ssa.Value(files) && (sl.Low != nil || sl.High != nil) {
+					sliced = true
+				}
+				if cl, ok := in.(*ssa.Call); ok {
+					if b, ok := cl.Call.Value.(*ssa.Builtin); ok && b.Name() == "len" && files != nil && resolveParam(cl.Call.Args[0]) == ssa.Value(files) {
+						ranged = true
+					}
+				}
+			}
+			c.Check(files != nil && ranged && !sliced, "C09.TAGS", "readTagColumnsFromParquetFiles|all-files", fn.Pos(), "every input file's tag footer is read", "readTagColumnsFromParquetFiles reads the tag footer of only part of its files (the parameter is sub-sliced): a tag that appears only in the files left out is missing from the dedup key, rows that differ only in that tag are collapsed, and the job then deletes its inputs")
+		}
+	}
 	p := c.P
 	c.Rule("C09.RUN", "ORDER: in Job.Run, whenever a manifest manager exists no path reaches uploadFile without WriteManifest having returned nil; deleteOldFiles executes only after uploadFile returned nil (in cluster mode: and the output_written completion manifest was written); the success-path DeleteManifest executes only after deleteOldFiles returned nil")
 	c.Rule("C09.RECOVER", "DOM: in recoverManifest every delete of a manifest input is guarded by Exists(output) == true, and the final DeleteManifest by zero delete errors and the consumed-inputs callback returning nil")
